@@ -326,11 +326,28 @@ fn repeated_defaulted_item_with_invalid_variable(case: &mut Case) {
             adjacent: false,
         },
     });
-    let dflt = Spec::wrap(
-        if rng.chance(1, 2) { W::Fallback } else { W::FallbackWithOk },
-        2,
-        a,
-    );
+    // ... or through a choice, whose branches are evaluated on copies as well:
+    // `construct!([alpha, beta]).many()`
+    let in_choice = rng.chance(1, 3);
+    let dflt = if in_choice {
+        let beta = Spec::Item(Item {
+            id: 4,
+            names: Names::long("beta"),
+            help: None,
+            leaf: Leaf::ReqFlag,
+        });
+        if rng.chance(1, 2) {
+            Spec::Alt(vec![a, beta])
+        } else {
+            Spec::Alt(vec![beta, a])
+        }
+    } else {
+        Spec::wrap(
+            if rng.chance(1, 2) { W::Fallback } else { W::FallbackWithOk },
+            2,
+            a,
+        )
+    };
     let (w, wname) = match rng.below(3) {
         0 => (W::Many { catch: false }, "many"),
         1 => (W::Some_ { catch: false }, "some"),
@@ -350,7 +367,11 @@ fn repeated_defaulted_item_with_invalid_variable(case: &mut Case) {
     std::env::remove_var(&var);
     if out != clean && !matches!(out, Outcome::Panic(_) | Outcome::FuelExhausted) {
         case.rep.violation(
-            &format!("variable-of-present-defaulted-item-influences:{}", out.class()),
+            &format!(
+                "variable-of-present-{}-influences:{}",
+                if in_choice { "item-in-a-choice" } else { "defaulted-item" },
+                out.class()
+            ),
             "precedence",
             case.index,
             b.detail(
